@@ -65,6 +65,39 @@ func wholeFrames(b []byte, packed bool) (bool, string) {
 	return true, ""
 }
 
+// splitFrames returns the complete frames at the start of the byte stream b (after unpacking, if packed).
+func splitFrames(b []byte, packed bool) [][]byte {
+	if packed {
+		u, _ := ref.Unpack(b) // on truncation: the words decoded so far
+		b = u
+	}
+	var out [][]byte
+	for len(b) >= 8 {
+		nseg := int(uint32(b[0])|uint32(b[1])<<8|uint32(b[2])<<16|uint32(b[3])<<24) + 1
+		if nseg > 64 {
+			break
+		}
+		hdr := 4 + 4*nseg
+		if hdr%8 != 0 {
+			hdr += 4
+		}
+		if len(b) < hdr {
+			break
+		}
+		total := hdr
+		for i := 0; i < nseg; i++ {
+			o := 4 + 4*i
+			total += 8 * int(uint32(b[o])|uint32(b[o+1])<<8|uint32(b[o+2])<<16|uint32(b[o+3])<<24)
+		}
+		if len(b) < total {
+			break
+		}
+		out = append(out, b[:total])
+		b = b[total:]
+	}
+	return out
+}
+
 func runStream(c SCase, fault *rpcsim.PipeFault) (*sOutcome, error) {
 	before := rpcGoroutines()
 	p := rpcsim.NewPipe()
@@ -103,7 +136,8 @@ func runStream(c SCase, fault *rpcsim.PipeFault) (*sOutcome, error) {
 	var calls []*appCall
 	var peerQ uint32
 	var serial uint64
-	nextAnswerToReturn := uint32(0)
+	var asked []rpcsim.Msg
+	seenFrames := 0
 	settle := func() {
 		// wait until the byte counts stop moving (bounded)
 		last, same := -1, 0
@@ -190,12 +224,28 @@ func runStream(c SCase, fault *rpcsim.PipeFault) (*sOutcome, error) {
 			if peerQ > 0 {
 				peer.SendFinish(uint32(1+s.A%int(peerQ)), s.A%2 == 0)
 			}
-		case "peer-return":
-			peer.SendReturn(rpcsim.PeerReturn{A: nextAnswerToReturn, Serial: 5, Caps: []rpcsim.CapDesc{{Kind: "senderHosted", ID: uint32(s.A % 2)}}})
-			nextAnswerToReturn++
-		case "peer-return-exc":
-			peer.SendReturn(rpcsim.PeerReturn{A: nextAnswerToReturn, Exc: "peer says no"})
-			nextAnswerToReturn++
+		case "peer-return", "peer-return-exc":
+			// answer the oldest question the Conn has asked (read from the bytes it wrote) and the peer has not answered
+			acc, _, _, _, _, _, _ := p.Snapshot()
+			fr := splitFrames(acc, c.Packed)
+			for ; seenFrames < len(fr); seenFrames++ {
+				if m := rpcsim.Parse(fr[seenFrames]); m.Which == "bootstrap" || m.Which == "call" {
+					asked = append(asked, m)
+				}
+			}
+			if len(asked) == 0 {
+				continue
+			}
+			q := asked[0]
+			asked = asked[1:]
+			switch {
+			case s.K == "peer-return-exc":
+				peer.SendReturn(rpcsim.PeerReturn{A: q.ID, Exc: "peer says no"})
+			case q.Which == "bootstrap":
+				peer.SendReturn(rpcsim.PeerReturn{A: q.ID, ContentCap: true, Caps: []rpcsim.CapDesc{{Kind: "senderHosted", ID: uint32(s.A % 2)}}})
+			default:
+				peer.SendReturn(rpcsim.PeerReturn{A: q.ID, Serial: 5, Caps: []rpcsim.CapDesc{{Kind: "senderHosted", ID: uint32(s.A % 2)}}})
+			}
 		case "open":
 			world.OpenUpTo(serial)
 		case "barrier":
